@@ -16,6 +16,14 @@ CHECKS = {
              "object. Bounded model checking: the table is enumerated, the amount is universally quantified by the solver.",
         note="floats modelled as exact reals (rounding outside the claim); tolerance 1e-13 relative; shims for float()/math.pow; z3 5.1.0 trusted",
         ref="DESIGN.md §4 C01"),
+    "C02": dict(
+        text="23 public conversion routes (Scalar/Array/FixedArray/Quantity/UnitDatabase float-int-list-tuple-numpy-exponent branches, "
+             "ChangeScalars, UnitSystemManager.ConvertToCurrent/ConvertScalarToCurrent, category defaults) are executed on symbolic amounts; "
+             "z3 proves element by element, for ALL reals, that each route returns frombase_v(tobase_u(x)) of the real closures, that container "
+             "kind, category and quantity type are preserved and that an object asked for its own unit returns the stored object itself.",
+        note="floats as exact reals; numpy float64 arrays modelled as dtype=object arrays of proxies (A-NP); math.pow shimmed with a fresh-root model; "
+             "container lengths 0..3; unit pairs enumerated/sampled as stated in evidence.bounds",
+        ref="DESIGN.md §4 C02"),
     "C03": dict(
         text="One +/- step from operands that the real operators built (shapes over length/time/mass, exponents -3..3, differing units and "
              "categories on both sides): on every path z3 proves for ALL real leaf amounts that the base-unit magnitude of a+-b equals "
